@@ -6,7 +6,7 @@
    joint conditioned on the other blocks -- besides its log-density it exposes the values it was conditioned on (a Posterior
    exposes likelihood.distribution.sqrtprec, prior.sqrtprec / prior.scale: functions of the other blocks' values).  All other
    sampler kinds run the transition functions of Model/C09_Gibbs.v on the log-density component. *)
-From CV Require Import Base.Tac Base.Cmp Base.QcLin Model.C09_Rto Model.C09_Gibbs.
+From CV Require Import Base.Tac Base.Cmp Base.QcLin Model.C09_Rto Model.C09_Nnls Model.C09_Gibbs.
 From Coq Require Import QArith Qround Qabs Qcanon.
 Local Open Scope Q_scope.
 
@@ -18,6 +18,9 @@ Definition jt2 (jt : list vec -> Q) (a : list vec) : tgt2 := (jt a, a).
    rows c_r - sum_b <co_{r,b}, x_b>) and, for UGLA's Laplace-approximated LMRF prior, Some beta: the precision of row r is then
    (precision of the group) / sqrt(t_r^2 + beta), t_r the value of the row at the sampler's current point. *)
 Definition lsspec : Type := list (gfac * option Q).
+(* a least-squares block sampler: its rows, and whether the solve is constrained to x >= 0 (RegularizedLinearRTO with the
+   non-negativity constraint; LinearRTO and UGLA: false) *)
+Definition lsblock : Type := (lsspec * bool)%type.
 
 Definition gweight (a : list vec) (f : gfac) : Q :=
   match g_w f with inl b => match nth_error a b with Some (d :: _) => d | _ => 0 end | inr c => c end.
@@ -54,7 +57,8 @@ Definition to_noisy (z : list ((vec * Q * Q * option Q) * Q * Q * Q)) : noisy :=
 
 (* LinearRTO.step / UGLA.step at the full assignment a (the other blocks' values the target was conditioned on; entry i = the
    sampler's current point): the random item carries  observed point ++ normals ++ sqrt certificates ++ dd certificates *)
-Definition rto_step (tol : Q) (sp : lsspec) (i : nat) (a : list vec) (s : sst) (r : rnd) : sst :=
+Definition rto_step (tol : Q) (sb : lsblock) (i : nat) (a : list vec) (s : sst) (r : rnd) : sst :=
+  let sp := fst sb in
   let n := length (s_pt s) in
   let rows := ls_rows sp i a in
   let k := length rows in
@@ -64,23 +68,23 @@ Definition rto_step (tol : Q) (sp : lsspec) (i : nat) (a : list vec) (s : sst) (
   let dds := firstn k (skipn (n + k + k) (r_vec r)) in
   let z := zip4 rows es ss dds in
   if Nat.eqb (length z) k && forallb (fun q => cert_ok tol (fst (fst (fst q))) (snd (fst q)) (snd q)) z
-  then match rto_draw n (to_noisy z) with
+  then match (if snd sb then nnls_draw n (to_noisy z) else rto_draw n (to_noisy z)) with
        | Some m => adopt s (s_scale s) (map (fun c : Qc => this c) m) obs
        | None => set_all s obs (s_cache s) [1] 1
        end
   else set_all s obs (s_cache s) [1] 1.
 (* the sampler reads the other blocks' values off the target it holds *)
-Definition rto_trans (tol : Q) (sp : lsspec) (i : nat) (t : vec -> tgt2) (s : sst) (r : rnd) : sst :=
-  rto_step tol sp i (snd (t (s_pt s))) s r.
+Definition rto_trans (tol : Q) (sb : lsblock) (i : nat) (t : vec -> tgt2) (s : sst) (r : rnd) : sst :=
+  rto_step tol sb i (snd (t (s_pt s))) s r.
 
-Definition ctrans2 (tol : Q) (specs : list (option lsspec)) (i : nat) (t : vec -> tgt2) (s : sst) (r : rnd) : sst :=
+Definition ctrans2 (tol : Q) (specs : list (option lsblock)) (i : nat) (t : vec -> tgt2) (s : sst) (r : rnd) : sst :=
   match nth i specs None with
   | Some sp => rto_trans tol sp i t s r
   | None => ctrans i (fun p => fst (t p)) s r
   end.
 Definition creinit2 (fresh : bool) (i : nat) (t : vec -> tgt2) (s : sst) : sst := creinit fresh i (fun p => fst (t p)) s.
 
-Definition hybrid_run2 (tol : Q) (fresh : bool) (jt : list vec -> Q) (specs : list (option lsspec)) (kinds : list kind) (inits : list vec)
+Definition hybrid_run2 (tol : Q) (fresh : bool) (jt : list vec -> Q) (specs : list (option lsblock)) (kinds : list kind) (inits : list vec)
     (scales : list Q) (ns : list (option nat)) (sc : list (list (list rnd))) (ops : list op) : @run vec tgt2 sst :=
   run_ops (cond (jt2 jt)) s_pt (creinit2 fresh) (ctrans2 tol specs) ctune (nsteps ns) (script sc) ops 0
           (mkRun (hybrid_init jt kinds inits scales) [] []).
@@ -93,10 +97,10 @@ Definition ev_proj (e : @ev vec tgt2 sst) : @ev vec Q sst :=
    -1/2 sum_r W_r (c_r - <a_r, p>)^2  differs from the target's log-density by a constant *)
 Definition ls_q (rows : list (vec * Q * Q * option Q)) (p : vec) : Q :=
   - (1 # 2) * fold_left (fun acc row => let t := snd (fst (fst row)) - qdot (fst (fst (fst row))) p in acc + snd (fst row) * (t * t)) rows 0.
-Definition ls_tied (specs : list (option lsspec)) (probes : list (list vec)) (e : @ev vec tgt2 sst) : bool :=
+Definition ls_tied (specs : list (option lsblock)) (probes : list (list vec)) (e : @ev vec tgt2 sst) : bool :=
   match nth (e_blk e) specs None with
-  | Some sp =>
-      if forallb (fun gl : gfac * option Q => match snd gl with None => true | Some _ => false end) sp
+  | Some (sp, nn) =>           (* an implicit (regularized) prior has no log-density by design: nothing to compare *)
+      if negb nn && forallb (fun gl : gfac * option Q => match snd gl with None => true | Some _ => false end) sp
       then let rows := ls_rows sp (e_blk e) (upd (e_cur e) (e_blk e) (s_pt (e_s e))) in
            match nth (e_blk e) probes [] with
            | p0 :: ps => forallb (fun p => Qeq_bool (ls_q rows p - ls_q rows p0) (fst (e_tgt e p) - fst (e_tgt e p0))) ps
@@ -106,7 +110,7 @@ Definition ls_tied (specs : list (option lsspec)) (probes : list (list vec)) (e 
   | None => true
   end.
 
-Definition check_hybrid_tol2 (ctol : Q) (fresh : bool) (jt : list vec -> Q) (specs : list (option lsspec)) (kinds : list kind) (inits : list vec)
+Definition check_hybrid_tol2 (ctol : Q) (fresh : bool) (jt : list vec -> Q) (specs : list (option lsblock)) (kinds : list kind) (inits : list vec)
     (scales : list Q) (ns : list (option nat)) (sc : list (list (list rnd)))
     (ops : list op) (probes : list (list vec)) (combos : list (list (list Z))) (tol : Q)
     (olog : list oev) (ocur : list vec) (ostored : list (list vec)) (opts : list vec) : bool :=
